@@ -572,7 +572,10 @@ class Oracle(object):
         if cprefix is None:
             cprefix = nsel.get(q('c:prefix'))
         return {'namespace': nsel.get('name'), 'nsversion': nsel.get('version'), 'shared_library': shlib,
-                'c_prefix': cprefix, 'dependencies': deps, 'entries': entries, 'xrefs': sorted(self.xrefs)}
+                'c_prefix': cprefix, 'dependencies': deps, 'entries': entries, 'xrefs': sorted(self.xrefs),
+                # directory entries that refer to the namespace itself: none (a name of this namespace, also when it is
+                # spelled or resolved as "ThisNamespace.Name", is the local entry)
+                'own_namespace_xrefs': []}
 
 
 def constant_bytes(t, value):
@@ -675,7 +678,7 @@ class Gen(object):
             el.add(E('doc-deprecated', [('xml:space', 'preserve')]))
 
     # ---- types
-    def iface_ref(self, kinds=('class', 'interface', 'record', 'union', 'enum', 'flags', 'callback', 'boxed')):
+    def iface_ref(self, kinds=('class', 'interface', 'record', 'union', 'enum', 'flags', 'callback', 'boxed', 'precord')):
         """-> (gir name, c type, by-value kind?) of a named type of this or the dependency namespace, or None"""
         cands = []
         for k in kinds:
@@ -716,16 +719,21 @@ class Gen(object):
             ref = self.iface_ref()
             if ref is not None:
                 k, n, cname = ref
-                byval = k in ('enum', 'flags', 'callback') or (ctx == 'field' and self.p(0.15) and k in ('precord',))
+                byval = k in ('enum', 'flags', 'callback') or (k == 'precord' and self.p(0.6))   # typedef struct _X *X
                 a = [('name', n)]
                 if with_ctype:
                     a.append(('c:type', cname + ('' if byval else '*') + stars))
                 self.hit('type:iface:' + k + (':xns' if '.' in n else ''))
                 return E('type', a)
-        if r < 0.50 and self.aliases:
-            al = self.rng.choice(self.aliases)
-            self.hit('type:alias')
-            return E('type', [('name', al)] + ([('c:type', self.ns + al.split('.')[-1] + stars)] if with_ctype else []))
+        all_aliases = [(self.ns, a, k) for a, k in self.aliases]
+        if self.dep:
+            all_aliases += [(self.dep['ns'], a, k) for a, k in self.dep['names'].get('alias', [])]
+        if r < 0.53 and all_aliases:
+            ans, al, akind = self.rng.choice(all_aliases)
+            nm = al if ans == self.ns else '%s.%s' % (ans, al)
+            star = '*' if self.p(0.25) else ''       # the typedef name itself, or a pointer to it
+            self.hit('type:alias:%s%s%s' % (akind, ':xns' if ans != self.ns else '', ':star' if star and with_ctype else ''))
+            return E('type', [('name', nm)] + ([('c:type', ans + al + star + stars)] if with_ctype else []))
         if r < 0.66:
             kind = self.rng.choice(['c', 'c', 'c', 'c', 'GLib.Array', 'GLib.PtrArray', 'GLib.ByteArray'])
             a = []
@@ -942,21 +950,37 @@ class Gen(object):
         self.names['callback'].append(name)
         self.hit('top:callback')
 
-    def gen_alias(self):
+    def gen_alias(self, kind=None):
+        """kind: basic | iface | precord (a typedef of a `typedef struct _X *X` record) | chain (alias of an alias)"""
         name = self.fresh('Alias')
-        r = self.rng.random()
-        if r < 0.5:
+        if kind is None:
+            kind = self.rng.choice(['basic', 'basic', 'basic', 'iface', 'iface', 'precord', 'precord', 'chain', 'chain'])
+        known = [(None, a, k) for a, k in self.aliases]
+        if self.dep:
+            known += [(self.dep['ns'], a, k) for a, k in self.dep['names'].get('alias', [])]
+        if kind == 'chain' and not known:
+            kind = 'precord'
+        if kind == 'basic':
             target = self.rng.choice(['gint32', 'utf8', 'guint64', 'gpointer', 'gdouble'])
+        elif kind == 'chain':
+            ans, al, akind = self.rng.choice(known)
+            target = al if ans is None else '%s.%s' % (ans, al)
+            kind = 'chain>' + akind.split('>')[-1]           # remembers what the chain ends in
+        elif kind == 'precord':
+            if not self.names['precord'] and not (self.dep and self.dep['names'].get('precord')):
+                self.gen_record(force_pointer=True)
+            target = self.iface_ref(('precord',))[1]
         else:
             ref = self.iface_ref(('class', 'record', 'enum', 'interface'))
             target = ref[1] if ref else 'gint32'
+            kind = 'iface' if ref else 'basic'
         al = E('alias', [('name', name), ('c:type', self.ns + name)])
         self.docs(al)
         self.attributes(al, 0.2, 'alias')
         al.add(E('type', [('name', target), ('c:type', 'x')]))
         self.top.append(al)
-        self.aliases.append(name)
-        self.hit('top:alias')
+        self.aliases.append((name, kind))
+        self.hit('top:alias:' + kind + (':xns' if '.' in target else ''))
 
     def gen_field(self, container_kind, allow_callback):
         name = self.ident()
@@ -1031,7 +1055,7 @@ class Gen(object):
             return True
         return False
 
-    def gen_record(self, gtype_struct_for=None, name=None):
+    def gen_record(self, gtype_struct_for=None, name=None, force_pointer=False):
         name = name or self.fresh('Rec')
         a = [('name', name)]
         if self.p(0.8):
@@ -1045,7 +1069,7 @@ class Gen(object):
             a.append(('foreign', self.rng.choice(['1', '1', '0'])))
             self.hit('record:foreign')
         ptr = False
-        if self.p(0.06):
+        if force_pointer or self.p(0.06):
             a.append((self.rng.choice(['disguised', 'pointer']), '1'))
             ptr = True
             self.hit('record:pointer/disguised')
@@ -1353,7 +1377,7 @@ class Gen(object):
             self.gen_record(gtype_struct_for=name, name=ts)
 
     KINDS = ['function', 'function', 'callback', 'record', 'record', 'union', 'boxed', 'enum', 'enum', 'constant',
-             'constant', 'class', 'class', 'interface', 'alias', 'hidden']
+             'constant', 'class', 'class', 'interface', 'alias', 'alias', 'hidden']
 
     def build(self, n_top, shared_library='default', kinds=None):
         kinds = kinds or self.KINDS
@@ -1400,7 +1424,9 @@ class Gen(object):
                 self.hit('attributes:after-type:' + el.tag)
 
     def describe(self):
-        return {'ns': self.ns, 'version': self.version, 'names': {k: list(v) for k, v in self.names.items()}}
+        names = {k: list(v) for k, v in self.names.items()}
+        names['alias'] = [list(a) for a in self.aliases]
+        return {'ns': self.ns, 'version': self.version, 'names': names}
 
 # =====================================================================================
 # part 2: running the real compiler, the Lean decoder, the C readers; comparison; checks
@@ -1615,11 +1641,13 @@ class Canon(object):
 
     def api(self):
         raw = self.raw
-        entries, xrefs = [], []
+        entries, xrefs, own = [], [], []
         for e in raw['entries']:
             if not e['local']:
                 if e['namespace'] != self.ns:
                     xrefs.append('%s.%s' % (e['namespace'], e['name']))
+                else:
+                    own.append(e['name'])
                 continue
             n = e['node']
             k = self.blobs.get(e['blob_type'], 'type%d' % e['blob_type'])
@@ -1646,7 +1674,8 @@ class Canon(object):
         deps = raw['strings']['dependencies']
         return {'namespace': raw['strings']['namespace'], 'nsversion': raw['strings']['nsversion'],
                 'shared_library': raw['strings']['shared_library'], 'c_prefix': raw['strings']['c_prefix'],
-                'dependencies': sorted(deps.split('|')) if deps else [], 'entries': entries, 'xrefs': sorted(xrefs)}
+                'dependencies': sorted(deps.split('|')) if deps else [], 'entries': entries, 'xrefs': sorted(xrefs),
+                'own_namespace_xrefs': sorted(own)}
 
 
 def diff(a, b, path='', out=None, limit=12):
@@ -2025,6 +2054,10 @@ def make_dep(rng, idx):
                   ('enum', g.gen_enum), ('callback', g.gen_callback)):
         if not g.names[k]:
             fn()
+    # typedefs of pointer records, directly and through a chain, for the namespaces that include this one
+    g.gen_alias('precord')
+    g.gen_alias('chain')
+    g.gen_alias('iface')
     nsel.children = g.top
     text = render_repository([], nsel)
     return {'ns': ns, 'version': '1.0', 'gir': text, 'names': g.describe()['names'], 'cover': g.cover}
